@@ -758,18 +758,24 @@ with order_eqb (a b : order) : bool :=
   match a, b with Order e d, Order f c => expr_eqb e f && Bool.eqb d c end.
 
 (* ------------------------------------------------------------------ the ties (checked on every case) *)
-(* a case: tokens of the statement as written (real Tokenizer), the real parser's tree serialised into the model
-   AST, tokens of sqlparser.String(tree) (real Tokenizer) *)
-Definition c30_case := (list token * select * list token)%type.
+(* a case: is the statement written in the fragment's concrete syntax (says the generator); tokens of the statement as
+   written (real Tokenizer); the real parser's tree serialised into the model AST; tokens of sqlparser.String(tree) *)
+Definition c30_case := (bool * list token * select * list token)%type.
 
 (* (1) printer tie: the model printer, interpreting the generated templates, yields the tokens of the real String *)
-Definition c30_tie_print (c : c30_case) : bool := let '(_, a, printed) := c in tokens_eqb (print a) printed.
-(* (2) parser tie: the reference parser on the statement's tokens yields the real parser's tree *)
+Definition c30_tie_print (c : c30_case) : bool := let '(_, _, a, printed) := c in tokens_eqb (print a) printed.
+(* (2) parser tie: the reference parser on the statement's tokens yields the real parser's tree; a statement not known to be
+   in the fragment's concrete syntax may be rejected (E_syntax) by the reference parser, but never read differently *)
 Definition c30_tie_parse (c : c30_case) : bool :=
-  let '(src, a, _) := c in match parse src with Ok a' => select_eqb a' a | _ => false end.
-(* round trip through the model parser of what the implementation printed (oracle on the implementation's output) *)
+  let '(insyntax, src, a, _) := c in
+  match parse src with
+  | Ok a' => select_eqb a' a
+  | Err e => negb insyntax && (e =? E_syntax)
+  | Panic _ => false
+  end.
+(* the round trip of what the implementation printed, through the reference parser (oracle on the implementation's output) *)
 Definition c30_spec (c : c30_case) : bool :=
-  let '(_, a, printed) := c in match parse printed with Ok a' => select_eqb a' a | _ => false end.
+  let '(_, _, a, printed) := c in match parse printed with Ok a' => select_eqb a' a | _ => false end.
 
 (* one pinned template at a time (for the five refutation witnesses) *)
 Definition templates_pinned_select := {| t_Select := tpl_Select_pinned; t_TableValuedFunction := tpl_TableValuedFunction;
